@@ -125,8 +125,30 @@ func ruleNAM1(c *Ctx) {
 				_, isDefer := ci.(*ssa.Defer)
 				return isDefer && calleeNameIs(ci, "Unlock")
 			})
-			ok := len(locks) == 1 && len(unlocks) == 1 && locks[0].Block() == fn.Blocks[0] && unlocks[0].Block() == fn.Blocks[0]
-			c.Check(ok, "KnowledgeBase.AddRuleEntry / lookup and store under the lock", p.Pos(fn.Pos()), "Lock(); defer Unlock() in the entry block", "lookup-then-insert is not atomic")
+			// the lock is taken before the lookup and the store, and released by a deferred Unlock installed right away
+			ok := len(locks) == 1 && len(unlocks) == 1
+			if ok {
+				lk := locks[0].(ssa.Instruction)
+				before := func(a, b ssa.Instruction) bool {
+					return (a.Block() == b.Block() && instrIndex(a) < instrIndex(b)) || (a.Block() != b.Block() && a.Block().Dominates(b.Block()))
+				}
+				ok = before(lk, unlocks[0].(ssa.Instruction))
+				for _, bb := range fn.Blocks {
+					for _, in := range bb.Instrs {
+						switch x := in.(type) {
+						case *ssa.MapUpdate:
+							if ff, _ := fieldLoad(x.Map); ff == f && !before(lk, in) {
+								ok = false
+							}
+						case *ssa.Lookup:
+							if ff, _ := fieldLoad(x.X); ff == f && !before(lk, in) {
+								ok = false
+							}
+						}
+					}
+				}
+			}
+			c.Check(ok, "KnowledgeBase.AddRuleEntry / lookup and store under the lock", p.Pos(fn.Pos()), "Lock() before the lookup and the store, one deferred Unlock() after it", "lookup-then-insert is not atomic")
 		}
 	}
 }
